@@ -25,12 +25,21 @@ type c06Case struct {
 	Store StoreCfg
 	Net   simnet.Profile
 	Msgs  []c06Msg
+	// Cut: after the messages above the client starts one more message, transmits
+	// CutAfter bytes of its data (more than the limit allows, or less) and then
+	// never sends the end-of-data line: it closes (fin), resets (rst) or goes
+	// silent until the server's timeout (stall).  Nothing of it may be stored.
+	Cut      string
+	CutAfter int
 }
 
 func (k *c06Case) Describe() []string {
 	l := []string{fmt.Sprintf("MaxMessageBytes=%d store=%s %s", k.Limit, k.Store, profileString(k.Net))}
 	for i, m := range k.Msgs {
 		l = append(l, fmt.Sprintf("msg%d size=%d (limit%+d) SIZE=%s(%d) token=%s", i, m.Size, m.Size-k.Limit, m.SizeArg, m.Declared, m.Token))
+	}
+	if k.Cut != "" {
+		l = append(l, fmt.Sprintf("then one more message: %d bytes of data (limit%+d) transmitted, no end-of-data line, connection ends by %s", k.CutAfter, k.CutAfter-k.Limit, k.Cut))
 	}
 	return l
 }
@@ -84,6 +93,10 @@ func genC06(w *simrt.Choices, tier string, avoid map[string]bool) Case {
 	}
 	// always finish with a small message: the session must remain usable
 	k.Msgs = append(k.Msgs, c06Msg{Size: 180, Token: fmt.Sprintf("tok%d", n+1)})
+	if w.Choose(3) == 0 {
+		k.Cut = []string{"fin", "rst", "stall"}[w.Choose(3)]
+		k.CutAfter = []int{k.Limit / 2, k.Limit + 1, k.Limit + c06Slack + 50, 2 * k.Limit, 3*k.Limit + 5}[w.Choose(5)]
+	}
 	return k
 }
 
@@ -178,7 +191,49 @@ func runC06(c *Ctx, cs Case) {
 				c.Stat("probe.sizes_in_unconstrained_band", 1)
 			}
 		}
-		cl.cmd("QUIT")
+		if k.Cut == "" {
+			cl.cmd("QUIT")
+			return
+		}
+		// one more message that is never finished
+		const cutTok = "tokcut"
+		mustNot[cutTok] = true
+		sizes[cutTok] = k.CutAfter
+		if r := cl.cmd("MAIL FROM:<sender@origin.test>"); !r.ok2xx() {
+			c.Failf("session-unusable", "MAIL of the last message answered %s", r)
+			return
+		}
+		if r := cl.cmd("RCPT TO:<boxcut@example.com>"); !r.ok2xx() {
+			c.Failf("session-unusable", "RCPT of the last message answered %s", r)
+			return
+		}
+		if r := cl.cmd("DATA"); r.Code != 354 {
+			c.Failf("session-unusable", "DATA of the last message answered %s", r)
+			return
+		}
+		hdr := mkMessage(cutTok, "hdr@sender.test", []string{"boxcut@example.com"}, 0, 1)
+		data := dotStuff(mkMessage(cutTok, "hdr@sender.test", []string{"boxcut@example.com"}, k.CutAfter+200-len(hdr), 99))
+		// dotStuff appended the end-of-data line; transmit only CutAfter bytes, ending inside a line
+		n := k.CutAfter
+		if n > len(data)-8 {
+			n = len(data) - 8
+		}
+		_ = cl.write(data[:n])
+		simrt.Current().Quiesce()
+		switch k.Cut {
+		case "fin":
+			_ = cl.conn.Close()
+			c.Stat("fault.conn_fin_mid_data", 1)
+		case "rst":
+			cl.conn.Abort()
+			c.Stat("fault.conn_rst_mid_data", 1)
+		case "stall":
+			simrt.Sleep(root.SMTP.Timeout + root.SMTP.Timeout/4)
+			c.Stat("fault.client_silent_mid_data_past_timeout", 1)
+		}
+		if k.CutAfter > k.Limit {
+			c.Stat("probe.oversized_data_never_finished", 1)
+		}
 	})
 	c.Main.Join(t)
 	env.stop()
@@ -189,6 +244,7 @@ func runC06(c *Ctx, cs Case) {
 	for i := range k.Msgs {
 		names = append(names, "box"+strconv.Itoa(i))
 	}
+	names = append(names, "boxcut")
 	dump, err := dumpStore(st, names)
 	if err != nil {
 		c.Failf("store-read-error", "%v", err)
@@ -234,7 +290,8 @@ func init() {
 			"1-4 messages whose data size sits at L/2, L-slack, L+slack, 2L, 3L or inside the band |s-L|<slack, with the SIZE parameter absent, " +
 			"truthful, understated or overstated, followed by a small message on the same connection. Oracle: declared SIZE > L => MAIL " +
 			"refused; s >= L+slack => refusal after the data and nothing stored; s <= L-slack => accepted and stored; every later transaction " +
-			"on the session still works; nothing larger than L+2*slack (trace headers included) is ever found in any mailbox. slack = 512 bytes covers CRLF/LF, " +
+			"on the session still works; in a third of the runs one more message follows whose data (L/2 .. 3L bytes) is transmitted without the end-of-data line " +
+			"before the connection is closed, reset or left silent past the timeout - nothing of it may be stored; nothing larger than L+2*slack (trace headers included) is ever found in any mailbox. slack = 512 bytes covers CRLF/LF, " +
 			"terminator, dot-stuffing and header-counting ambiguity. non-trivial = at least one oversized message was transmitted",
 		Real:        []string{"pkg/server/smtp", "pkg/message", "stores", "net/textproto"},
 		Stub:        []string{"TCP (simnet)", "scheduler", "clock", "disk"},
